@@ -655,6 +655,47 @@ fn write_tree(root: &Path, base: &Base, ov: &BTreeMap<String, Option<Vec<u8>>>) 
         }
         let _ = std::fs::write(&path, c);
     }
+    // files a mutation adds to the tree
+    for (p, content) in ov {
+        if let (false, Some(c)) = (base.files.contains_key(p), content) {
+            let path = root.join(p);
+            if let Some(par) = path.parent() {
+                let _ = std::fs::create_dir_all(par);
+            }
+            let _ = std::fs::write(&path, c);
+        }
+    }
+}
+
+/// FEA include graphs (fea-rs/src/parse/context.rs): self include, 2-cycle, a chain deeper than
+/// MAX_INCLUDE_DEPTH. Fixed corpus on the generated UFO (base 0); predicate only.
+fn fea_include_corpus(base: &Base) -> Vec<MalCase> {
+    let Some(fea_path) = base.files.keys().find(|k| k.ends_with("features.fea")).cloned() else {
+        return vec![];
+    };
+    let dir = fea_path.trim_end_matches("features.fea").to_string();
+    let mk = |name: &str, files: Vec<(String, String)>| {
+        let mut ov = BTreeMap::new();
+        for (f, c) in files {
+            ov.insert(f, Some(c.into_bytes()));
+        }
+        MalCase { base: 0, ov, muts: vec![json!({"op": format!("fea-include:{name}"), "file": fea_path.clone()})], ops: vec![format!("fea-include:{name}")], formats: vec!["fea".into()] }
+    };
+    let rule = "feature liga { sub A by B; } liga;\n";
+    let mut chain: Vec<(String, String)> = vec![(fea_path.clone(), "include(i0.fea);\n".to_string())];
+    for i in 0..60 {
+        chain.push((format!("{dir}i{i}.fea"), format!("include(i{}.fea);\n", i + 1)));
+    }
+    chain.push((format!("{dir}i60.fea"), rule.to_string()));
+    vec![
+        mk("self", vec![(fea_path.clone(), format!("include(features.fea);\n{rule}"))]),
+        mk("two-cycle", vec![
+            (fea_path.clone(), "include(x.fea);\n".to_string()),
+            (format!("{dir}x.fea"), "include(y.fea);\n".to_string()),
+            (format!("{dir}y.fea"), "include(x.fea);\n".to_string()),
+        ]),
+        mk("chain-60", chain),
+    ]
 }
 
 const FEA: &str = "languagesystem DFLT dflt;\nlanguagesystem latn dflt;\n@caps = [A B];\nfeature liga {\n    sub A B by Aacute;\n} liga;\nfeature ss01 {\n    sub A by B;\n} ss01;\n";
@@ -1375,6 +1416,9 @@ fn main() {
     }
     let (gcycles, gcycle_skipped) = glyphs_cycle_corpus(&clean_map);
     cases.extend(gcycles.into_iter().map(Case::GCycle));
+    if generated_ok {
+        cases.extend(fea_include_corpus(&bases[0]).into_iter().map(Case::Mal));
+    }
     let corpus_len = cases.len();
     let corpus_hang = cases.iter().filter(|c| matches!(c, Case::Graph(gc) if hang_prone(&gc.store, gc.flags))).count();
     let (mut hang_kept, mut hang_replaced) = (0usize, 0usize);
